@@ -484,6 +484,11 @@ class Aff:
                 eqs.append(lin.add(Lin.const(kk), -1))
             else:
                 bounds.setdefault(repr(lin), [lin, 0, None, set()])[3].add(kk)
+        # x - c*(x / c) is a remainder: below c whatever the path
+        for key, ent in bounds.items():
+            for form, cdiv in self.remainder_forms():
+                if ent[0] == form:
+                    ent[2] = cdiv - 1 if ent[2] is None else min(ent[2], cdiv - 1)
         for key, (lin, lo, hi, excl) in bounds.items():
             if hi is None or hi - lo > 64:
                 continue
@@ -491,6 +496,21 @@ class Aff:
             if len(rest) == 1:
                 eqs.append(lin.add(Lin.const(rest[0]), -1))
         return eqs
+
+    def remainder_forms(self):
+        """[(x - c*t, c)] for every t = x / c or x >> k (unsigned, constant divisor) in the function"""
+        r = getattr(self, "_remforms", None)
+        if r is None:
+            r = []
+            for I in self.f.insts:
+                if I.op in ("udiv", "lshr") and I.ops[1][0] == "c":
+                    cv = int(I.ops[1][1])
+                    if I.op == "lshr":
+                        cv = (1 << cv) if 0 < cv < 32 else 0
+                    if 1 < cv <= 65536:
+                        r.append((self.value(tuple(I.ops[0])).add(self.value(("i", I.id)), -cv), cv))
+            self._remforms = r
+        return r
 
     def facts_at(self, block):
         return self.facts_from_conds(ir.conditions_at(self.f, block), ir.switch_conds_at(self.f, block))
